@@ -1,0 +1,23 @@
+//go:build !verif
+
+// Package verifhook holds the hooks used by the external runtime verification harness.
+// Without the verif build tag every hook is an empty function.
+package verifhook
+
+import "github.com/B1NARY-GR0UP/originium/types"
+
+const Enabled = false
+
+func FS(op, path string)     {}
+func FSDone(op, path string) {}
+func Point(name string)      {}
+func Event(name string)      {}
+func EventN(name string, n int) {
+}
+
+func CloneLists(lists [][]types.Entry) [][]types.Entry { return nil }
+
+func NoteLow(owner any, low uint64) {}
+
+func Compaction(owner any, level int, inputs [][]types.Entry, output []types.Entry) {
+}
